@@ -122,6 +122,30 @@ func discharge(o *Obligation, opts solveOpts) {
 			add("opaque-nolemmas", false, true)
 		}
 	}
+	trigIdx := -1
+	if t := trigVariant(q); t != "" {
+		p := filepath.Join(opts.outDir, fileSafe(o.Name)+".trig.smt2")
+		os.WriteFile(p, []byte(t), 0o644)
+		files = append(files, p)
+		tags = append(tags, "trig")
+		trigIdx = len(files) - 1
+	}
+	fpIdx := -1
+	{
+		base := q
+		if trigIdx >= 0 {
+			if b, err := os.ReadFile(files[trigIdx]); err == nil {
+				base = string(b)
+			}
+		}
+		if t := fpabsVariant(base); t != "" {
+			p := filepath.Join(opts.outDir, fileSafe(o.Name)+".fpabs.smt2")
+			os.WriteFile(p, []byte(t), 0o644)
+			files = append(files, p)
+			tags = append(tags, "fpabs")
+			fpIdx = len(files) - 1
+		}
+	}
 	// The portfolio is run in two stages so that the many easy obligations cost two short solver runs each, and the
 	// number of solver processes alive at once is capped (procSem) - oversubscribing the cores turns 1 s proofs into timeouts.
 	type job struct {
@@ -130,7 +154,19 @@ func discharge(o *Obligation, opts solveOpts) {
 		to int
 	}
 	last := len(files) - 1
+	if fpIdx >= 0 {
+		last = fpIdx - 1
+	}
+	if trigIdx >= 0 {
+		last = trigIdx - 1
+	}
 	stage1 := []job{{solvers[0], last, minInt(2, opts.timeoutS)}, {solvers[1], 0, minInt(2, opts.timeoutS)}}
+	if trigIdx >= 0 {
+		stage1 = append(stage1, job{solvers[1], trigIdx, minInt(2, opts.timeoutS)}, job{solvers[3], trigIdx, minInt(2, opts.timeoutS)})
+	}
+	if fpIdx >= 0 {
+		stage1 = append(stage1, job{solvers[0], fpIdx, minInt(2, opts.timeoutS)}, job{solvers[3], fpIdx, minInt(2, opts.timeoutS)})
+	}
 	var stage2 []job
 	for fi := len(files) - 1; fi >= 0; fi-- {
 		for _, si := range []int{3, 0, 2, 1} {
@@ -276,7 +312,13 @@ func dischargeAll(obls []*Obligation, opts solveOpts, par int) {
 				dischargeCanary(o, oo)
 				return
 			}
+			if o.KnownOpen && oo.timeoutS > 4 && !oo.all {
+				oo.timeoutS = 4
+			}
 			discharge(o, oo)
+			if o.KnownOpen {
+				return
+			}
 			if o.Status == "unknown" && !o.MustFail {
 				// one retry with doubled timeout and another seed
 				o2 := opts
